@@ -20,6 +20,9 @@ pub struct RtrTestServer {
     pub ports: Vec<u16>,
     pub metrics: Arc<RtrServerMetrics>,
     pub history: SharedHistory,
+    /// connections to the first listener that were established (queued in the accept backlog)
+    /// before the listener task was started
+    pub preconnected: Vec<std::net::TcpStream>,
 }
 
 const SLURM: &str = r#"{"slurmVersion":1,"validationOutputFilters":{"prefixFilters":[],"bgpsecFilters":[]},"locallyAddedAssertions":{"prefixAssertions":[{"asn":64496,"prefix":"192.0.2.0/24","maxPrefixLength":24},{"asn":64497,"prefix":"2001:db8::/32"}],"bgpsecAssertions":[]}}"#;
@@ -32,6 +35,13 @@ pub fn free_port() -> std::io::Result<u16> {
 impl RtrTestServer {
     /// Starts `n` listeners. Ports are probed free immediately before use; three attempts.
     pub fn start(n: usize, keepalive: Option<Duration>, client_metrics: bool) -> Result<Self, String> {
+        Self::start_with_backlog(n, keepalive, client_metrics, 0)
+    }
+
+    /// Like `start`, but `burst` client connections to the first listener are established after the
+    /// sockets are bound and before the listener task runs, so they all sit in the accept queue when
+    /// the listener is polled for the first time.
+    pub fn start_with_backlog(n: usize, keepalive: Option<Duration>, client_metrics: bool, burst: usize) -> Result<Self, String> {
         let rt = tokio::runtime::Builder::new_multi_thread().worker_threads(2).enable_all().build().map_err(|e| e.to_string())?;
         let mut last = String::new();
         for _attempt in 0..3 {
@@ -64,8 +74,15 @@ impl RtrTestServer {
                     }
                 }
             };
+            let mut preconnected = Vec::new();
+            for _ in 0..burst {
+                match std::net::TcpStream::connect_timeout(&SocketAddr::from(([127, 0, 0, 1], ports[0])), Duration::from_secs(5)) {
+                    Ok(s) => preconnected.push(s),
+                    Err(e) => return Err(format!("pre-connect: {}", e)),
+                }
+            }
             rt.spawn(fut);
-            return Ok(RtrTestServer { rt, ports, metrics, history });
+            return Ok(RtrTestServer { rt, ports, metrics, history, preconnected });
         }
         Err(last)
     }
